@@ -10,8 +10,10 @@
    successful evaluation (EvalScript decodes every instruction, also in dead branches), so what
    the serializer does with it is not observable by consensus.  `core_get_op` still records how
    far Core's iterator has moved when GetScriptOp fails (`GFail adv`), because
-   SerializeScriptCode's last write uses that iterator; the theorems of C04 that compare the
-   serialization of the script code are stated for decodable scripts only (`core_decodable`). *)
+   SerializeScriptCode's last write uses that iterator.  For the legacy digest two formulations of
+   Core are given: today's streaming serializer (`core_signature_hash_legacy`) and the original
+   FindAndDelete(OP_CODESEPARATOR) one (`core_signature_hash_old`, Core's SignatureHashOld test
+   reference); they agree on decodable scripts (`core_decodable`), which is all consensus can observe. *)
 From PV Require Import Base.Bytes.
 Local Open Scope N_scope.
 
@@ -156,8 +158,10 @@ Definition f_anyonecanpay (nHashType : N) : bool := negb (N.land nHashType SIGHA
 Definition f_single (nHashType : N) : bool := N.land nHashType 31 =? SIGHASH_SINGLE.
 Definition f_none (nHashType : N) : bool := N.land nHashType 31 =? SIGHASH_NONE.
 
+(* the serializer takes the BYTES written for the script code of input nIn as a parameter, because Core has
+   had two formulations of them (below) *)
 Section Legacy.
-Variables (scriptCode : bytes) (tx : CTransaction) (nIn : nat) (nHashType : N).
+Variables (scriptCodeBytes : bytes) (tx : CTransaction) (nIn : nat) (nHashType : N).
 Notation fAnyoneCanPay := (f_anyonecanpay nHashType).
 Notation fHashSingle := (f_single nHashType).
 Notation fHashNone := (f_none nHashType).
@@ -166,7 +170,7 @@ Definition ser_input (nInput : nat) : bytes :=
   let nInput := if fAnyoneCanPay then nIn else nInput in
   let txin := nth nInput (ctx_vin tx) null_txin in
   ser_outpoint (in_prevout txin)
-  ++ (if negb (nInput =? nIn)%nat then compact_size 0 else ser_script_code scriptCode)
+  ++ (if negb (nInput =? nIn)%nat then compact_size 0 else scriptCodeBytes)
   ++ (if negb (nInput =? nIn)%nat && (fHashSingle || fHashNone) then le32 0 else le32 (in_nSequence txin)).
 
 Definition ser_output (nOutput : nat) : bytes :=
@@ -181,11 +185,21 @@ Definition ser_for_signature : bytes :=
   ++ compact_size (N.of_nat nOutputs) ++ flat_map ser_output (seq 0 nOutputs)
   ++ le32 (ctx_nLockTime tx).
 
-Definition core_signature_hash_legacy : core_sighash :=
+Definition signature_hash_with : core_sighash :=
   if (length (ctx_vin tx) <=? nIn)%nat then CoreOne                       (* nIn out of range *)
   else if fHashSingle && (length (ctx_vout tx) <=? nIn)%nat then CoreOne  (* the SIGHASH_SINGLE bug *)
   else CorePreimage (ser_for_signature ++ le32 nHashType).
 End Legacy.
+
+(* (a) SignatureHash as Core computes it today: CTransactionSignatureSerializer::SerializeScriptCode *)
+Definition core_signature_hash_legacy (scriptCode : bytes) :=
+  signature_hash_with (ser_script_code scriptCode).
+(* (b) the original formulation (Satoshi's client, kept as SignatureHashOld in Core's sighash_tests.cpp, against
+   which the streaming serializer is tested): scriptCode.FindAndDelete(CScript(OP_CODESEPARATOR)), then the script
+   serialized as a whole.  (a) = (b) on every decodable script; they differ on scripts with an undecodable
+   instruction, which no successful evaluation can contain (remark at the top of this file). *)
+Definition core_signature_hash_old (scriptCode : bytes) :=
+  signature_hash_with (ser_script (core_find_and_delete [n2b OP_CODESEPARATOR] scriptCode)).
 
 (* uint256 ONE as the 32 bytes that a digest would be *)
 Definition uint256_one : bytes := x01 :: repeatb x00 31.
